@@ -375,6 +375,32 @@ case("pair assignment of pure reads split; bound-method alias then folded", """
         return out
 """, 0)
 
+case("private read-only properties read like method calls", """
+    class K:
+        def __init__(self):
+            self.a, self.b = {1: "x"}, {2: "y", 1: "z"}
+        @property
+        def _merged(self):
+            out = dict(self.a)
+            out.update(self.b)
+            return out
+        @property
+        def _all(self):
+            return [*self.a.values(), *self.b.values()]
+        @property
+        def public(self):
+            return len(self._merged)
+        def run(self):
+            m = self._merged
+            m[9] = "local copy only"
+            return sorted(self._merged.items()), self._all, self.public, sorted(m)
+    class Sub(K):
+        def more(self):
+            return len(self._all)
+    def main():
+        return K().run(), Sub().more()
+""", 0)
+
 
 def run(tree):
     buf = io.StringIO()
